@@ -16,7 +16,7 @@ Alphabet == {
   [k |-> "minus", n |-> "a/x"], [k |-> "minus", n |-> NULL], [k |-> "plus", n |-> "b/x"], [k |-> "plus", n |-> NULL],
   [k |-> "git", o |-> "a/x", n |-> "b/y"],
   [k |-> "index", o |-> "12ab", n |-> "34cd"], [k |-> "newmode", m |-> "100755"], [k |-> "delmode", m |-> "100644"], [k |-> "newfilemode", m |-> "100644"],
-  [k |-> "renfrom"], [k |-> "rento"], [k |-> "binary"],
+  [k |-> "renfrom"], [k |-> "rento"], [k |-> "binary"], [k |-> "copyfrom"], [k |-> "oldmode", m |-> "644"], [k |-> "newmode", m |-> "000755"],
   [k |-> "hh", os |-> 1, oc |-> 1, ns |-> 1, nc |-> 1], [k |-> "hh", os |-> 0, oc |-> 0, ns |-> 1, nc |-> 1],
   [k |-> "hh", os |-> 3, oc |-> 0, ns |-> 3, nc |-> 0], [k |-> "hh", os |-> 1, oc |-> HUGE, ns |-> 1, nc |-> 2],
   [k |-> "badhh"],
